@@ -277,7 +277,18 @@ def run(rng, tier, res=None, want=("arcs", "pdf", "cluster")):
                       f"{ints(roots)} | {ints(labs)} | {ints(enc(c) for c in costs)} | {ints(sg.idx_nodes)} | "
                       f"{sg.n_clusters if unsup else 0} | {ints(prop)}")
                 lines.append(" ".join(line.split())); obs.append(ob)
-                metas.append(dict(meta, k=k, unsup=unsup, force=force, dens=dens0, cost=cost0, adj=inp_adj, nplat=inp_np))
+                metas.append(dict(meta, k=k, unsup=unsup, force=force, dens=dens0, cost=cost0, adj=inp_adj, nplat=inp_np,
+                                  caseid=f"clu{case}", tier="A"))
+                # tier B: the real removal order replayed through the relational semantics
+                adj_aft = adj_ints(sg, n)
+                visited = [adj_aft[i][: nd[i].n_plateaus + k] if unsup else adj_aft[i] for i in range(n)]
+                new_order = list(sg.idx_nodes)[len(prior_order):]
+                lline = (f"lawclu {1 if unsup else 0} {1 if force else 0} {NEGTOP} {n} {lists_tok(visited)} {ints(enc(d) for d in dens0)} "
+                         f"{ints(enc(c) for c in cost0)} {ints(lab)} {len(new_order)} {ints(new_order)}")
+                lob = (f"lawful 1 | {ints(enc(c) for c in costs)} | {ints(preds)} | {ints(roots)} | {ints(labs)} | "
+                       f"{sg.n_clusters if unsup else 0}")
+                lines.append(" ".join(lline.split())); obs.append(lob)
+                metas.append({"stream": "lawclu", "caseid": f"clu{case}", "tier": "B"})
                 res.add_case(lines[-1], nontrivial=(n >= 3))
                 res.hit("cluster_unsup" if unsup else ("cluster_knn_force" if force else "cluster_knn"))
                 if len(set(dens0)) < n:
